@@ -382,6 +382,20 @@ NoisyCases ==
           \o <<For("e", V("src"), Block(<<Asg("+=", V("acc"), Bin("+", V("e"), V("x")))>>)), TupE(<<Deref(V("acc")), V("x"), V("a")>>)>>,
         T3(5, 1, 4)) : d \in BOOLEAN}
 
+\* the names the implementation's helper code uses internally, bound by the user: every iterator operator leaves them alone
+HelperNames == <<"iterator", "default", "func", "function", "mapper", "predicate", "res", "con", "value", "array", "i", "len", "initial", "result", "tuple">>
+HelperCase ==
+  Case("helper-names-untouched",
+       [j \in 1..Len(HelperNames) |-> Set(HelperNames[j], H(70 + j))] \o
+       <<Set("src", Hide(WArr(WMulti(<<WInt, WStr>>)), ArrE(<<I(1), S(<<97>>), I(2)>>))),
+         Set("r1", CollectE(TFilterE(IterE(V("src")), WInt))),
+         Set("r2", CollectE(MapE(FilterE(TFilterE(IterE(V("src")), WInt), GtF), DblF))),
+         Set("r3", PartE(TFilterE(IterE(V("src")), WInt), GtF)),
+         Set("r4", Bin("+", RedE("$+", "int", TFilterE(IterE(V("src")), WInt)), ReduceE(TFilterE(IterE(V("src")), WInt), I(0), AddF))),
+         Set("acc", MutE(WInt, I(0))), For("e", TFilterE(IterE(V("src")), WInt), Block(<<Asg("+=", V("acc"), V("e"))>>)),
+         TupE([j \in 1..Len(HelperNames) |-> V(HelperNames[j])])>>,
+       TupV([j \in 1..Len(HelperNames) |-> IntV(70 + j)]))
+
 \* ---------------------------------------------------------------- (E) modules
 SV(fs) == StructV(fs)
 ModCases == {
@@ -425,7 +439,7 @@ ModCases == {
 }
 
 \* int / bool / struct values cannot share one TLC set: keep the suites in separate sequences
-CaseSeq == SetToSeq(ShadowCases) \o SetToSeq(SoloCases) \o SetToSeq(RedeclCases) \o SetToSeq(CapturedCases) \o SetToSeq(CaptureCases) \o SetToSeq(RecCases) \o SetToSeq(NoisyCases) \o SetToSeq(ModCases)
+CaseSeq == SetToSeq(ShadowCases) \o SetToSeq(SoloCases) \o SetToSeq(RedeclCases) \o SetToSeq(CapturedCases) \o SetToSeq(CaptureCases) \o SetToSeq(RecCases) \o SetToSeq(NoisyCases) \o <<HelperCase>> \o SetToSeq(ModCases)
 N == Len(CaseSeq)
 Fuel == 3000
 Out(i) == Outcome(Run(CaseSeq[i].prog, Fuel))
